@@ -21,9 +21,13 @@ CLAIMED = {
         text="Seeded search over append histories (split points, append forms p+b / p+=b / parse / segment+b, interleaved observers), every step compared with the library's own one-shot parse of the concatenated text; stratified so that every (last command of a, first command of b) pair occurs. Sampling, not proof: the space of strings is unbounded.",
         note="Trusted: the one-shot parse as reference (what C17 literally states); the generator's grammar coverage (every letter, implicit repetition, inline close); float comparison at 1e-9 relative. Arcs under shear and lazily transformed right operands are outside the property's quantifier and are not generated."),
 }
+CLAIMED["C18"] = dict(
+        level="exploration", ref="DESIGN.md 5.5",
+        technique="deterministic simulation: seeded two-owner mutation histories over source and derived object, structural probe for shared nodes, snapshot/equality oracles after every step",
+        text="Seeded search over two-owner histories: for every element kind and derivation the property names (copy, x*M, abs, Path(x), Path(subpath), Group copy) up to 6 public mutations are interleaved on source and result, a structural probe places the first mutation on any node reachable from both; after each step the untouched owner's public snapshot and its == against a frozen deep copy must be unchanged; for +, -, ~ only what the property states (operands untouched by evaluation) is demanded. Sampling over kinds x derivations x mutation sequences, not proof.",
+        note="Trusted: the snapshot covers the public attributes that carry geometry, transform, paint, values and children; value-at-derivation for x*M and abs(x) is differential against copy(x) followed by the in-place form; SVG (document root) and constructor-from-object on value types are outside the property's list and are not exercised.")
 BUILDING = {
  "C10": "check under construction (claimed in DESIGN.md 5.2; not yet registered, so not claimed at this commit)",
- "C18": "check under construction (claimed in DESIGN.md 5.5; not yet registered, so not claimed at this commit)",
  "C20": "check under construction (claimed in DESIGN.md 5.6; not yet registered, so not claimed at this commit)",
 }
 
